@@ -23,6 +23,8 @@ func runC20(w *World, r *Report) {
 	r.Rule("R-C20-1", "authentication gate (edge cut): with the edges {Session.Authenticated true, Route.mustAuthenticate false} removed, the dynamic call of the route handler in ServeHTTP is unreachable", 1)
 	r.Rule("R-C20-2", "permission gate (edge cut + abstract status): with the edges {permission granted, Session.Admin true, requiredPermissions == nil} removed, the handler call is unreachable once branches on a provably not-OK status are pruned", 1)
 	r.Rule("R-C20-3", "the handler is invoked only at one site, under status == http.StatusOK, and nowhere else in package router", 1)
+	r.Rule("R-C20-5", "a permission counts only for a proven identity: with the edges {Session.Authenticated true} removed, no permission lookup (auth.GetPermission, util.InListInsensitive, HasAllPermissions) that decides the gate is reachable in ServeHTTP, and the value the gate branches on has no other source than those lookups and the constant false", 2)
+	r.Rule("R-C20-6", "administrator status implies authentication: every store to router.Session.Admin is the constant false, the value stored to Session.Authenticated, or a value whose non-false sources are reachable only through the true edge of that value", 2)
 	r.Rule("R-C20-4", "route table: every router.New chain has constant path/method/builder arguments, and no chain combines LightWeight(true) with Authentication(true) or Permissions(...)", 80)
 
 	rp := w.pkg("internal/router")
@@ -181,6 +183,95 @@ func runC20(w *World, r *Report) {
 			r.Discharge("R-C20-2", key2, w.pos(hc.Pos()), "denial leaves status not-OK on every path; handler unreachable")
 		}
 	}
+
+	// ---- R-C20-5: grants are looked up only for an authenticated session
+	authCuts := cutEdges(fn, func(f Fact) bool {
+		return f.Kind == "true" && isFieldNamed(f.V, "Authenticated")
+	})
+
+	isGrantCall := func(v ssa.Value) bool {
+		c, ok := v.(*ssa.Call)
+		if !ok {
+			return false
+		}
+
+		id := callID(c.Common())
+
+		return id == "internal/util.InListInsensitive" || id == "internal/server/auth.GetPermission" || strings.HasSuffix(id, ".HasAllPermissions")
+	}
+
+	grantRoots := map[ssa.Value]bool{}
+
+	for _, b := range fn.Blocks {
+		if len(b.Instrs) == 0 {
+			continue
+		}
+
+		ifi, ok := b.Instrs[len(b.Instrs)-1].(*ssa.If)
+		if !ok {
+			continue
+		}
+
+		c := ifi.Cond
+		for {
+			u, isNot := c.(*ssa.UnOp)
+			if !isNot || u.Op != token.NOT {
+				break
+			}
+
+			c = u.X
+		}
+
+		if _, isInstr := c.(ssa.Instruction); isInstr && !isFieldNamed(c, "Admin") && isGrant(c) {
+			grantRoots[c] = true
+		}
+	}
+
+	for root := range grantRoots {
+		seen := map[ssa.Value]bool{}
+
+		var leaves func(v ssa.Value)
+
+		leaves = func(v ssa.Value) {
+			if seen[v] {
+				return
+			}
+
+			seen[v] = true
+
+			key := "router.Router.ServeHTTP|grant-source " + valueName(v)
+
+			switch x := v.(type) {
+			case *ssa.Phi:
+				for _, e := range x.Edges {
+					leaves(e)
+				}
+			case *ssa.Const:
+				if b, ok := constBool(x); ok && !b {
+					r.Discharge("R-C20-5", key, w.pos(root.Pos()), "constant false")
+				} else {
+					r.Violate("R-C20-5", key, w.pos(root.Pos()), "the permission gate can be satisfied by a constant, without any permission lookup")
+				}
+			default:
+				if !isGrantCall(v) {
+					r.Violate("R-C20-5", key, w.pos(v.Pos()), "the permission gate branches on a value that is not a permission lookup")
+
+					return
+				}
+
+				if instrReachableAfterCut(fn, v.(ssa.Instruction), authCuts) {
+					r.Violate("R-C20-5", key, w.pos(v.Pos()), "this permission lookup runs for a session that is not authenticated: Session.User is also set when the credentials only name a user (Basic header with a wrong password), so on a route declared with Permissions(...) but without Authentication(true) the named user's permissions open the route to anyone")
+				} else {
+					r.Discharge("R-C20-5", key, w.pos(v.Pos()), "reachable only through Session.Authenticated == true")
+				}
+			}
+		}
+
+		leaves(root)
+	}
+
+	// ---- R-C20-6: Admin implies Authenticated
+	c20AdminStores(w, r)
 
 	// ---- R-C20-4 route table
 	routes := extractRoutes(w)
@@ -444,4 +535,110 @@ func copyFacts(f map[ssa.Value]byte) map[ssa.Value]byte {
 	}
 
 	return o
+}
+
+// c20AdminStores checks every store to router.Session.Admin in the repository.
+func c20AdminStores(w *World, r *Report) {
+	isSessionField := func(addr ssa.Value, name string) (ssa.Value, bool) {
+		fa, ok := addr.(*ssa.FieldAddr)
+		if !ok {
+			return nil, false
+		}
+
+		if fieldName(fa.X.Type(), fa.Field) != name {
+			return nil, false
+		}
+
+		if !strings.HasSuffix(fa.X.Type().String(), "internal/router.Session") {
+			return nil, false
+		}
+
+		return fa.X, true
+	}
+
+	var all []*ssa.Function
+	for _, p := range w.pkgs {
+		all = append(all, w.srcFuncs(p)...)
+	}
+
+	for _, f := range all {
+		var adminStores, authStores []*ssa.Store
+
+		allInstrs(f, func(in ssa.Instruction) {
+			st, ok := in.(*ssa.Store)
+			if !ok {
+				return
+			}
+
+			if _, ok := isSessionField(st.Addr, "Admin"); ok {
+				adminStores = append(adminStores, st)
+			}
+
+			if _, ok := isSessionField(st.Addr, "Authenticated"); ok {
+				authStores = append(authStores, st)
+			}
+		})
+
+		for i, as := range adminStores {
+			key := fnKey(f) + "|store Session.Admin"
+			if i > 0 {
+				key += " #" + sprintInt(i+1)
+			}
+
+			if b, ok := constBool(as.Val); ok && !b {
+				r.Discharge("R-C20-6", key, w.pos(as.Pos()), "constant false")
+
+				continue
+			}
+
+			// the Authenticated store that dominates this one
+			var authVal ssa.Value
+
+			for _, us := range authStores {
+				if instrDominates(us, as) {
+					authVal = us.Val
+				}
+			}
+
+			if authVal == nil {
+				r.Violate("R-C20-6", key, w.pos(as.Pos()), "Session.Admin is set without Session.Authenticated being set on the same path: administrator status would not imply authentication")
+
+				continue
+			}
+
+			if as.Val == authVal {
+				r.Discharge("R-C20-6", key, w.pos(as.Pos()), "same value as Session.Authenticated")
+
+				continue
+			}
+
+			// path-sensitive: on no consistent path does the store see a value
+			// that may be true while the authentication result may be false
+			exhausted := false
+			bad := ""
+
+			walkPathsOpt(f, nil, walkOpts{exhausted: &exhausted}, func(b *ssa.BasicBlock, facts pathFacts) bool {
+				if b != as.Block() {
+					return false
+				}
+
+				if absValue(as.Val, facts) != 'F' && absValue(authVal, facts) != 'T' {
+					bad = valueName(as.Val)
+
+					return true
+				}
+
+				return false
+			})
+
+			switch {
+			case exhausted:
+				r.Violate("R-C20-6", key, w.pos(as.Pos()), "undecided: the path search ran out of budget")
+			case bad != "":
+				r.Violate("R-C20-6", key, w.pos(as.Pos()), "Session.Admin can be set ("+bad+") on a path where the authentication result is not known to be true: an unauthenticated request would skip the permission gate as administrator")
+			default:
+				r.Discharge("R-C20-6", key, w.pos(as.Pos()), "on every consistent path the stored value is false unless the value stored to Session.Authenticated is true")
+			}
+		}
+	}
 }
